@@ -467,6 +467,52 @@ def gen_ops_for(pid, rng, n):
     return ops
 
 
+def call_shape_phase(chk, rng, n):
+    """C07 last clause: a story that compiles never fails at run time for a missing, surplus, unknown or doubly
+    supplied argument.  Random signatures x call shapes x call-site kinds (top-level / nested choice or jump)."""
+    stats = {"compiled": 0, "rejected": 0, "ran_ok": 0, "sites": {}}
+    for _ in range(n):
+        k = rng.randint(1, 4)
+        names = ["p", "q", "r", "s"][:k]
+        nreq = rng.randint(0, k)
+        sig = ", ".join(nm if i < nreq else f"{nm}={rng.choice(['0', '1', 'p + 1' if i > 0 else '2'])}" for i, nm in enumerate(names))
+        npos = rng.randint(0, k + 1)
+        kws = [nm for nm in names + ["zz"] if rng.random() < 0.35]
+        args = ", ".join([str(rng.randint(0, 9)) for _ in range(npos)] + [f"{nm}={rng.randint(0, 9)}" for nm in kws])
+        site = rng.choice(["choice", "jump", "choice-in-if", "jump-in-if", "choice-in-for", "jump-in-for"])
+        call = f"T({args})"
+        body = {"choice": f"+ [Go] -> {call}", "jump": f"-> {call}",
+                "choice-in-if": f"@if True:\n    + [Go] -> {call}\n@endif",
+                "jump-in-if": f"@if True:\n    Text\n    -> {call}\n@endif",
+                "choice-in-for": f"@for i in [1]:\n    + [Go] -> {call}\n@endfor",
+                "jump-in-for": f"@for i in [1]:\n    -> {call}\n@endfor"}[site]
+        if site.startswith("jump"):
+            src = f":: Start\n+ [In] -> Mid\n\n:: Mid\nMid text\n{body}\n\n:: T({sig})\nT text {{{names[0]}}}\n+ [Back] -> Start\n"
+            ops = [("choose", 0)]
+        else:
+            src = f":: Start\nStart text\n{body}\n\n:: T({sig})\nT text {{{names[0]}}}\n+ [Back] -> Start\n"
+            ops = [("choose", 0)]
+        stats["sites"][site] = stats["sites"].get(site, 0) + 1
+        try:
+            story = R.compile_story(src)
+        except (SyntaxError, ValueError):
+            stats["rejected"] += 1
+            chk.count(("shape", sig, args, site), False)
+            continue
+        stats["compiled"] += 1
+        recs, _ = R.run_history(story, ops)
+        last = recs[-1]
+        chk.count(("shape", sig, args, site), True)
+        if last["obs"][0] == "exc" and last["obs"][1] == "ValueError":
+            shape = ("missing" if npos + len([x for x in kws if x in names]) < nreq or True else "")
+            chk.report(f"compiled-call-fails-to-bind:site={site}",
+                       f"'{call}' against T({sig}) compiled but choose() raised ValueError at run time",
+                       {"story_source": src, "ops": ops, "signature": sig, "args": args})
+        else:
+            stats["ran_ok"] += 1
+    return stats
+
+
 PINNED_F02B = """:: Start
 ~ a = 0
 [Start]
@@ -506,6 +552,9 @@ def run_engine_property(pid: str, tier: str, seed: int, design_note: str) -> int
             chk.report("hook-writes-var-read-by-choice-condition",
                        "a turn_end hook changed a variable after the choices were filtered: a stale choice is offered",
                        {"story": PINNED_F02B, "ops": [("choose", 0)]})
+
+    if pid == "C07":
+        stats["call_shapes"] = call_shape_phase(chk, rng, 150 if tier == "quick" else 1500)
 
     long_histories = 0
     for i in range(n_cases):
